@@ -50,6 +50,14 @@ def ifdata_number_cases():
         t = ('ASAP2_VERSION 1 71 /begin PROJECT p "" /begin MODULE m "" /begin IF_DATA VENDOR %s "s" /begin BLK %s id /end BLK /end IF_DATA '
              '/end MODULE /end PROJECT') % (lit, lit)
         cases.append({'text': t, 'strict': True, 'kind': 'ifdata-number', 'literal': lit})
+    # float literals at and beyond the limits of f32 and f64: uninterpreted, and at a position the file's A2ML declares as float / double
+    # (a literal that does not fit a float member makes the definition fail; the uninterpreted fallback keeps it as a double)
+    aml = '/begin A2ML block "IF_DATA" taggedunion { "SCALING" struct { float; double; uint; }; "D" struct { double; }; }; /end A2ML '
+    for lit in ['3.4028235e38', '-3.4028235e38', '3.5e38', '4e38', '1e39', '-1e39', '1e308', '-1.7976931348623157e308', '1e-46', '5e-324', '1e-39']:
+        for body in ('VENDOR %s "s"', 'SCALING %s 2.5 7', 'SCALING 1.5 %s 7', 'D %s'):
+            for a in ('', aml):
+                t = 'ASAP2_VERSION 1 71 /begin PROJECT p "" /begin MODULE m "" ' + a + '/begin IF_DATA ' + (body % lit) + ' /end IF_DATA /end MODULE /end PROJECT'
+                cases.append({'text': t, 'strict': False, 'kind': 'ifdata-number', 'literal': lit})
     return cases
 
 
@@ -160,7 +168,11 @@ def explained_by_storage(literal):
             v = int(t)
             return not (-(1 << 31) <= v < (1 << 31))
         x = float(t)
-        return struct.unpack('<f', struct.pack('<f', x))[0] != x
+        try:
+            return struct.unpack('<f', struct.pack('<f', x))[0] != x
+        except OverflowError:
+            # beyond the range of f32 the value is kept as an f64 (since b449238): it must come back as the same number
+            return x != x or x in (float('inf'), float('-inf'))
     except (ValueError, OverflowError, struct.error):
         return True
 
